@@ -283,6 +283,19 @@ def _graph_selftest(ctx, evs):
     return len(wanted)
 
 
+NATIVE_BLUEPRINTS = [("package", "Package"), ("resource", "FungibleResourceManager"), ("resource", "NonFungibleResourceManager"),
+                     ("resource", "FungibleVault"), ("resource", "NonFungibleVault"), ("consensus_manager", "ConsensusManager"),
+                     ("consensus_manager", "Validator"), ("access_controller", "AccessController"), ("account", "Account"),
+                     ("identity", "Identity"), ("pool", "OneResourcePool"), ("pool", "TwoResourcePool"), ("pool", "MultiResourcePool"),
+                     ("locker", "AccountLocker"), ("transaction_tracker", "TransactionTracker")]
+ENTITY_TYPES_EXPECTED = ["GlobalPackage", "GlobalConsensusManager", "GlobalValidator", "GlobalTransactionTracker", "GlobalGenericComponent",
+                         "GlobalAccount", "GlobalIdentity", "GlobalAccessController", "GlobalOneResourcePool", "GlobalTwoResourcePool",
+                         "GlobalMultiResourcePool", "GlobalAccountLocker", "GlobalPreallocatedSecp256k1Account",
+                         "GlobalPreallocatedSecp256k1Identity", "GlobalPreallocatedEd25519Account", "GlobalPreallocatedEd25519Identity",
+                         "GlobalFungibleResourceManager", "GlobalNonFungibleResourceManager", "InternalFungibleVault",
+                         "InternalNonFungibleVault", "InternalGenericComponent", "InternalKeyValueStore"]
+
+
 def C05(ctx):
     q = ctx.quick
     with ThreadPoolExecutor(max_workers=3) as ex:
@@ -295,7 +308,7 @@ def C05(ctx):
                                             consts={"MaxSteps": 4, "Relax": '{"%s"}' % rel})))
         # T (i): seeded histories with accounts, resources and the node-juggling test blueprint
         hp = ctx.wpath("graph-history.ndjson")
-        runs, ln, every = (2, 70, 5) if q else (10, 160, 4)
+        runs, ln, every = (2, 100, 5) if q else (10, 160, 4)
         vh(BIN, ["nodegraph", "history", "seed=%d" % ctx.seed, "runs=%d" % runs, "len=%d" % ln, "checker_every=%d" % every],
            stdout_path=hp)
         # T (ii): the repository's transaction scenarios, genesis -> latest protocol version
@@ -327,21 +340,38 @@ def C05(ctx):
     hsum, ssum = hist[-1], scen[-1]
     if hsum.get("a") != "summary" or ssum.get("a") != "summary" or hsum["commits"] < runs * ln or ssum["commits"] < 100:
         raise ToolError("graph recording incomplete")
-    # non-vacuity, independent of the seed (the catalogue of run 0): every refusal class and every node operation
-    needed = ["success:", "failure:CallFrame:WriteSubstateError.ProcessSubstateError.CantDropNodeInStore", "failure:Kernel:OrphanedNodes",
-              "failure:CallFrame:WriteSubstateError.SubstateDiffError.ContainsDuplicateOwns", "failure:AppPanic", "failure:System:TypeCheckError"]
-    for k in needed:
-        if not hsum["outcomes"].get(k):
-            raise ToolError("seeded histories never produced outcome " + k)
-    for k in ("NewObj", "NewKv", "NewVault", "Nest", "PutInKv", "StoreInField", "StoreInKv", "StoreRef", "Drop", "Globalize"):
-        if not hsum.get("ops_ok", {}).get(k):
-            raise ToolError("no successful transaction of the seeded histories used node operation " + k)
     allev = hist + scen + big
     ctx.sample({"trace_event": next(e for e in hist if e["a"] == "commit" and len(e["upd"]) >= 3)})
     ctx.sample({"trace_event": next(e for e in scen if e["a"] == "commit" and len(e["upd"]) >= 2)})
     ctx.sample({"history_outcomes": hsum["outcomes"]})
     _validate_graph_traces(ctx, hist, "nodegraph:history", "seeded history")
     _validate_graph_traces(ctx, scen + big, "nodegraph:scenarios", "transaction scenarios")
+    # non-vacuity, independent of the seed (the catalogues of run 0): every refusal class, every node operation,
+    # every native blueprint.  Evaluated AFTER the traces: when the engine lets a forbidden thing through, the
+    # refusal class is missing BECAUSE of a violation, which is then what gets reported.
+    if not ctx.violations:
+        needed = ["success:", "failure:CallFrame:WriteSubstateError.ProcessSubstateError.CantDropNodeInStore", "failure:Kernel:OrphanedNodes",
+                  "failure:CallFrame:WriteSubstateError.SubstateDiffError.ContainsDuplicateOwns", "failure:AppPanic", "failure:System:TypeCheckError",
+                  "failure:CallFrame:MovePartitionError.NonGlobalRefNotAllowed.NodeId",
+                  "failure:CallFrame:MovePartitionError.PersistNodeError.ContainsNonGlobalRef",
+                  "failure:CallFrame:WriteSubstateError.ProcessSubstateError.PersistNodeError",
+                  "failure:CallFrame:WriteSubstateError.ProcessSubstateError.NonGlobalRefNotAllowed"]
+        for k in needed:
+            if not hsum["outcomes"].get(k):
+                raise ToolError("seeded histories never produced outcome " + k)
+        for k in ("NewObj", "NewKv", "NewVault", "Nest", "PutInKv", "StoreInField", "StoreInKv", "StoreRef", "Drop", "Globalize", "HeapRefStored"):
+            if not hsum.get("ops_ok", {}).get(k):
+                raise ToolError("no successful transaction of the seeded histories used node operation " + k)
+        seen_bp = {(u["pkg"], u["bp"], u["kind"]) for e in hist if e.get("a") in ("reset", "commit") for u in e["upd"]}
+        for pkg, bp in NATIVE_BLUEPRINTS:
+            if (pkg, bp, "object") not in seen_bp:
+                raise ToolError("seeded histories never stored an object of native blueprint %s/%s" % (pkg, bp))
+        if not any(k == "kv" for _, _, k in seen_bp):
+            raise ToolError("seeded histories never stored a key-value store")
+        seen_et = {x[1] for e in hist if e.get("a") in ("reset", "commit") for x in e["ids"]}
+        for t in ENTITY_TYPES_EXPECTED:
+            if t not in seen_et:
+                raise ToolError("seeded histories never produced a node of entity type " + t)
     nself = _graph_selftest(ctx, hist)
     # information: where the repository's KernelDatabaseChecker is stricter than the engine
     disagreements = [e["label"][:120] for e in allev if e.get("checker") == "ran" and e.get("kernel") != "ok"]
@@ -357,7 +387,9 @@ def C05(ctx):
                     "after every accepted call%s. T: after EVERY committed transaction of %d seeded histories x %d transactions "
                     "(accounts, resources, transfers, preallocated accounts, and a native test blueprint that creates, nests, stores into "
                     "fields / KV entries / heap KV stores, drops, globalizes objects, stores references, duplicates owns, removes stored "
-                    "owns, leaks nodes and panics half-way; run 0 starts with a fixed catalogue of 25 programs covering every operation and every refusal) and of the repository's transaction scenarios (genesis -> latest protocol, %s) "
+                    "owns, leaks nodes and panics half-way; run 0 starts with fixed catalogues: one instance of every native global blueprint incl. "
+                    "preallocated accounts/identities, pools, validator, access controller, locker; 42 programs covering every operation, every refusal, "
+                    "and every way a reference to a non-global node could reach the store) and of the repository's transaction scenarios (genesis -> latest protocol, %s) "
                     "the harness walks the whole database and logs the graph; TraceNodeGraph.tla evaluates UniqueOwner, RefsGlobal, HasState, "
                     "EntityTypeMatches, NoCycles in every state. distinct = distinct structural graph changes"
                     % (5 if q else 6, "" if q else "; three models with one rule switched off each violate the expected invariant",
